@@ -11,7 +11,8 @@ from .. import gen, putcheck, run, sched, snap, spec, trashio, world
 ID = 'C04'
 SCEN = ['first-use', 'existing', 'same-named-1', 'same-named-3',
         'same-named-99', 'same-named-101', 'orphan-payload', 'stale-info',
-        'mixed-kinds', 'dir-payload-same-name']
+        'mixed-kinds', 'dir-payload-same-name', 'long-name-orphan',
+        'long-name-stale-info']
 
 
 def config(tier):
@@ -51,6 +52,11 @@ def gen_case(rng, index, tier):
     base = L.home if where == 'home' else 'v1'
     tdir = L.home_trash() if where == 'home' else 'v1/.Trash-%d' % L.uid
     name = rng.choice(['foo', 'a b', 'x.txt', 'é'])
+    if scen.startswith('long-name'):
+        # name + '.trashinfo' exceeds NAME_MAX: trash-put shortens the name
+        name = rng.choice(['n', 'é', 'ab']) * 300
+        while len(name.encode()) > rng.choice([250, 255, 247]):
+            name = name[:-1]
     kinds = ['file'] * nact
     if scen == 'mixed-kinds':
         kinds = [rng.choice(['file', 'dir_empty', 'link_dangling', 'tree'])
@@ -66,6 +72,9 @@ def gen_case(rng, index, tier):
         actors.append({'dir': d, 'rel': d + '/' + name, 'kind': kinds[i]})
     if scen != 'first-use':
         L.add(world.ensure_trash_dirs(tdir))
+    case_nrandom = None
+    if scen.startswith('long-name') and mode == 'enum':
+        mode = 'random'
     nold = {'same-named-1': 1, 'same-named-3': 3, 'same-named-99': 99,
             'same-named-101': 101}.get(scen, 0)
     for j in range(nold):
@@ -74,6 +83,16 @@ def gen_case(rng, index, tier):
         L.add(world.trash_nodes(
             tdir, nm, world.trashinfo_text('old/%d' % j, '2001-01-01T00:00:00'),
             [{'p': '', 't': 'f', 'c': 'old payload %d' % j}]))
+    if scen.startswith('long-name'):
+        L.add(world.ensure_trash_dirs(tdir))
+        from . import c01 as _c01
+        for nm2 in _c01.trash_names(name)[:]:
+            if scen == 'long-name-orphan':
+                L.add({'p': tdir + '/files/' + nm2, 't': 'f',
+                       'c': 'old orphan under a shortened name'})
+            elif len((nm2 + '.trashinfo').encode()) <= 255:
+                L.add({'p': tdir + '/info/' + nm2 + '.trashinfo', 't': 'f',
+                       'c': world.trashinfo_text('stale', '2001-01-01T00:00:00')})
     if scen == 'orphan-payload':
         L.add({'p': tdir + '/files/' + name, 't': 'f', 'c': 'old orphan'})
     if scen == 'stale-info':
